@@ -293,9 +293,21 @@ struct xcm_socket *xcm_accept_a(struct xcm_socket *server_s,
     bool is_blocking = server_s->is_blocking;
     struct xcm_socket *conn_s;
 
+    /* The connection socket is created in the mode asked for. Were
+       "xcm.blocking" applied like the other attributes, a switch to
+       blocking mode would try to finish the work of a connection
+       that does not exist yet. */
+    bool conn_is_blocking = server_s->is_blocking;
+    if (attrs != NULL) {
+	const bool *requested =
+	    xcm_attr_map_get_bool(attrs, XCM_ATTR_XCM_BLOCKING);
+	if (requested != NULL)
+	    conn_is_blocking = *requested;
+    }
+
 restart:
     conn_s = socket_create(server_s->proto, xcm_socket_type_conn,
-			   server_s->is_blocking);
+			   conn_is_blocking);
     if (conn_s == NULL)
 	goto err;
 
